@@ -191,16 +191,25 @@ def main() -> int:
             if fn.startswith(prop + "-") or fn.startswith("all-"):
                 programs.append("".join(ln for ln in open(os.path.join(corpus_dir, fn)) if not ln.startswith("#")))
                 ncorpus += 1
-    gen_programs, exhaustive, rule = plan.programs(tier, seed)
-    programs.extend(gen_programs)
-    dis, viols, stats, impl, model = evaluate(prop, programs)
+    custom = getattr(plan, "custom", None)
+    if custom is not None:
+        viols, stats, dis, ptext = custom(tier, seed)
+        for v in viols:
+            v.prog_index = 0
+        programs = [ptext]
+        impl, model = [[]], [[]]
+        exhaustive, rule = False, plan.rule
+    else:
+        gen_programs, exhaustive, rule = plan.programs(tier, seed)
+        programs.extend(gen_programs)
+        dis, viols, stats, impl, model = evaluate(prop, programs)
 
     # search when an obligation or the correspondence broke
     broken = list(lb.broken)
     for d in dis:
         broken.append(f"correspondence: program #{d.prog_index} line {d.line_no}: {d.cmd}")
     searched = 0
-    if broken and not [v for v in viols if not findings.match(known, v)]:
+    if broken and custom is None and not [v for v in viols if not findings.match(known, v)]:
         extra_programs, _, _ = plan.programs("search", seed + 7919)
         searched = len(extra_programs)
         dis2, viols2, stats2, impl2, model2 = evaluate(prop, extra_programs)
@@ -235,6 +244,11 @@ def main() -> int:
             _, vs, _, _, _ = evaluate(prop, [p])
             return any(x.kind == kind and findings.match(known, x) is None for x in vs)
 
+        if custom is not None:
+            path = write_replay(prop, v.kind, prog, v.detail,
+                                extra=("broken obligations: " + "; ".join(broken)) if broken else None)
+            violations.append((path, ""))
+            continue
         small = shrink(prop, prog, v.kind, still, v.detail) if os.environ.get("VERIF_NO_SHRINK") is None else prog
         i2 = run.run_side("impl", [small])[0]
         m2 = run.run_side("model", [small])[0]
